@@ -226,6 +226,15 @@ func main() {
 	// fixed probe: which bytes fasthttp.VisitHeaderParams treats as token bytes (the driver compares
 	// the table with its `tchar`)
 	w.Case("probe.tchar", "p", "-", gen.Hex(probeTchar()), "-", "-", "-", "probe")
+	// fixed probe of helpers.go isTokenByte through the public API: "text/html;<c>=x" keeps the
+	// parameter (and then does not accept the offer text/html) exactly when <c> is a token byte; the
+	// model must agree byte for byte (CR, LF, NUL cannot be sent in a header value)
+	for c := 1; c < 256; c++ {
+		if c == '\r' || c == '\n' {
+			continue
+		}
+		emit(w, fmt.Sprintf("probe.tb.%d", c), "a", "-", "text/html;"+string([]byte{byte(c)})+"=x", []string{"text/html"})
+	}
 	root := gen.New(o.Seed)
 	for i := 0; i < o.N; i++ {
 		r := root.Fork(uint64(i))
